@@ -10,6 +10,7 @@ import BqVerif.Proofs.GatesCKM
 import BqVerif.Proofs.GatesWitness
 import BqVerif.Model.GateShapeTable
 import BqVerif.Generated.GateShapes
+import BqVerif.Proofs.GatesIdentity
 /-!
 # C18 — every library gate obeys the gate contract for all parameters
 
@@ -28,6 +29,9 @@ parameter vectors.  `toM n f` is the `n × n` Mathlib matrix of a model matrix `
 * `C18_inverse_<g>` : inverse gate at the inverse parameters times the gate is `1`.
 * composed gates: generic in the inner gate (section "Composed gates").
 * `C18_shapes_agree` : the regenerated shape table of the live classes equals the model's.
+* `C18_identity_*` : equal gates hash equally - the table of what every `__eq__` / `__hash__`
+  reads (regenerated from the source of the live classes) equals the model's, every row but
+  the known findings is coherent, and coherence means equal hash keys in every semantics.
 -/
 namespace BqVerif.C18
 open BqVerif.Gates Matrix
@@ -732,5 +736,76 @@ example : ∃ (E W S V : Matrix (Fin 2) (Fin 2) ℂ), E = W * S * Vᴴ ∧ Wᴴ 
 /-- name, `num_params`, radixes, `qasm_name` and inverse class of every exported gate, as
 regenerated from the live classes on this run, are those of the model's table. -/
 theorem C18_shapes_agree : Generated.gateShapes = Gates.shapeTable := by decide +kernel
+
+/-! ## Gate identity: equal gates hash equally (strengthening round) -/
+
+open BqVerif.GateIdentity in
+/-- what `__eq__` and `__hash__` of every exported gate class (and of `UnitaryMatrix`,
+`Operation`, `CircuitLocation`) read, as regenerated from the source of the live classes on
+this run, is what the model's table says: a change to either method breaks this obligation. -/
+theorem C18_identity_agree : Generated.gateIdentity = identityTable := table_agree
+
+open BqVerif.GateIdentity in
+/-- every regenerated row, except the rows of the known findings, is coherent: both methods
+are `object`'s (identity), or every value `__hash__` hashes is determined by values `__eq__`
+compares with a relation at least as fine (`compatible`, `derived`). -/
+theorem C18_identity_coherent :
+    ∀ r ∈ Generated.gateIdentity, r.cls ∉ knownIncoherent → coherent r = true := table_coherent
+
+open BqVerif.GateIdentity in
+/-- the exemption list is exact: every exempted class has an incoherent row (the findings
+`hash-eq:ConstantUnitaryGate`, `hash-eq:TaggedGate`, `hash-eq:CircuitGate:name`; each is
+replayed on the real classes by harness/c18_identity.py on every run). -/
+theorem C18_identity_findings_witness :
+    ∀ c ∈ knownIncoherent, ∃ r ∈ Generated.gateIdentity, r.cls = c ∧ coherent r = false :=
+  known_incoherent
+
+open BqVerif.GateIdentity in
+/-- what coherence means: in EVERY semantics of attribute values that respects `compatible`, two
+well-formed instances of a coherent class that `__eq__` identifies have the same hash key. -/
+theorem C18_identity_sound (S : Sem) (hS : S.Respects) (r : IdRow) (hne : r.hashBy ≠ "object")
+    (hc : coherent r = true) (a b : Inst S) (wf : WF S r a b) (heq : eqHolds S r a b) :
+    hashKey S r a = hashKey S r b := coherent_sound S hS r hne hc a b wf heq
+
+open BqVerif.GateIdentity in
+/-- non-vacuity: the list semantics respects `compatible`; the row of `ControlledGate` is
+coherent with a hash of its own; two instances that differ in a value `__eq__` does not
+compare are identified. -/
+example : ∃ (S : Sem) (r : IdRow) (a b : Inst S), S.Respects ∧ r ∈ identityTable ∧
+    r.hashBy ≠ "object" ∧ coherent r = true ∧ WF S r a b ∧ eqHolds S r a b ∧ a ≠ b := by
+  refine ⟨listSem, ⟨"ControlledGate", "ControlledGate", "ControlledGate", false,
+    [⟨"control_levels", "control_levels", "list[list]", "=="⟩,
+     ⟨"control_radixes", "control_radixes", "list[int]", "=="⟩,
+     ⟨"gate", "gate", "Gate", "=="⟩, ⟨"num_controls", "num_controls", "int", "=="⟩],
+    [⟨"gate", "gate", "Gate", "hash"⟩, ⟨"radixes", "radixes", "tuple[int]", "hash"⟩]⟩,
+    (fun p => if p = "ihalf" then [1] else []), (fun _ => []), listSem_respects,
+    by decide +kernel, by decide, by decide +kernel, ⟨?_, ?_⟩, ?_, ?_⟩
+  · intro d hd _ _
+    have : d.2.1 ≠ "ihalf" := by
+      simp only [derived, List.mem_cons, List.not_mem_nil, or_false] at hd
+      rcases hd with rfl | rfl <;> decide
+    simp [this]
+  · intro e he hev
+    simp only [List.mem_cons, List.not_mem_nil, or_false] at he
+    rcases he with rfl | rfl | rfl | rfl <;> exact absurd hev (by decide)
+  · intro e he
+    simp only [List.mem_cons, List.not_mem_nil, or_false] at he
+    rcases he with rfl | rfl | rfl | rfl <;> simp [relIn, relOf, plainTy, exactDomain, listSem]
+  · intro h
+    have := congrFun h "ihalf"
+    simp at this
+
+open BqVerif.GateIdentity in
+/-- the refusals of `compatible` that the findings and the seeded change C18-2 rest on are
+real: set-equal levels in another order, dict items in insertion order, an arbitrary tag,
+`allclose` against corner entries, operations with other parameters - related values with
+different hash keys. -/
+theorem C18_identity_tight :
+    (∃ x y, listSem.rel .setOfEach x y ∧ listSem.fn .ident x ≠ listSem.fn .ident y) ∧
+    (∃ x y, listSem.rel .dictEq x y ∧ listSem.fn .orderedItems x ≠ listSem.fn .orderedItems y) ∧
+    (∃ x y, listSem.rel .anyEq x y ∧ listSem.fn .ident x ≠ listSem.fn .ident y) ∧
+    (∃ x y, listSem.rel .approx x y ∧ listSem.fn .corner x ≠ listSem.fn .corner y) ∧
+    (∃ x y, listSem.rel .opsGateLoc x y ∧ listSem.fn .ident x ≠ listSem.fn .ident y) :=
+  compatible_tight
 
 end BqVerif.C18
